@@ -92,7 +92,9 @@ class G:
         elif k == "list":
             self.bind(v, self.list_e(), "list")
         elif k == "float":
-            self.bind(v, r.choice([f"({self.int_e(1)} / 2)", "1.5", f"({self.int_e(1)} * 0.5)", f"({r.choice(['0.25', '2.0'])} + {self.int_e(1)})"]), "float")
+            self.bind(v, r.choice([f"({self.int_e(1)} / 2)", "1.5", f"({self.int_e(1)} * 0.5)", f"({r.choice(['0.25', '2.0'])} + {self.int_e(1)})",
+                                   f"({self.int_e(1)} - {r.choice(['0.5', '1.5', '2.0'])})", f"({r.choice(['0.5', '2.5'])} - {self.int_e(1)})",
+                                   f"[{self.int_e(1)} - 1.5, {self.int_e(1)} + 0.5][0]"]), "float")
         elif k == "str":
             self.bind(v, r.choice(['"a"', '"abc"', '("ab" + "c")', f'str({self.int_e(1)})', '"x" * 3', '"é\\"q"']), "str")
         elif k == "bool":
